@@ -118,6 +118,14 @@ def unstable_class(mm, depth=0):
     return None
 
 
+_ADDR = re.compile(r"0x[0-9a-fA-F]+")
+
+
+def norm(text):
+    """Descriptions may show objects created per match() call (warnings, results): addresses are not compared."""
+    return _ADDR.sub("0x", text)
+
+
 def fresh(matcher, matchee, clause="annotated-match"):
     try:
         mm = matcher.match(matchee)
@@ -146,26 +154,24 @@ def describable(matcher, matchee, mismatch, rot=0, with_expect=False):
     if not isinstance(d, dict):
         raise Fail("get_details", "get_details:not-dict:%s" % type(b).__name__, repr(d)[:200])
     d1 = must_str("describe", b.describe)
-    if d1 != d0:
+    if norm(d1) != norm(d0):
         raise Fail(
             "describe-after-get_details",
             "describe-after-get_details:%s" % (unstable_class(fresh(matcher, matchee)) or type(b).__name__),
             "%r, but a fresh mismatch of the same pair describes itself as %r" % (d1[:120], d0[:120]),
         )
-    for msg in MESSAGES:
-        m2 = Annotate.if_message(msg, matcher)
-        want = must_str("describe", fresh(m2, matchee).describe)
-        for verbose in (False, True):
-            mm2 = fresh(m2, matchee)
-            mm2.get_details()  # as TestCase._matchHelper does before the error is built
-            err = MismatchError(matchee, m2, mm2, verbose)
-            text = must_str("mismatcherror-str", lambda: str(err))
-            if want not in text:
-                raise Fail("mismatcherror-text", "mismatcherror-text:lacks-description:%s" % type(mm2).__name__, "%r lacks %r" % (text[:160], want[:120]))
-    # through the real entry points (one message / verbosity combination per pair, rotating)
+    # one message / verbosity combination per pair, rotating (a matcher meets every combination over its values)
     msg = MESSAGES[rot % 2]
     verbose = bool((rot // 2) % 2)
-    want = must_str("describe", fresh(Annotate.if_message(msg, matcher), matchee).describe)
+    m2 = Annotate.if_message(msg, matcher)
+    want = must_str("describe", fresh(m2, matchee).describe) if msg else d0
+    mm2 = fresh(m2, matchee)
+    mm2.get_details()  # as TestCase._matchHelper does before the error is built
+    err = MismatchError(matchee, m2, mm2, verbose)
+    text = must_str("mismatcherror-str", lambda: str(err))
+    if norm(want) not in norm(text):
+        raise Fail("mismatcherror-text", "mismatcherror-text:lacks-description:%s" % type(mm2).__name__, "%r lacks %r" % (text[:160], want[:120]))
+    # through the real entry points
     case = holder_case()
     try:
         case.assertThat(matchee, matcher, msg, verbose)
@@ -177,15 +183,17 @@ def describable(matcher, matchee, mismatch, rot=0, with_expect=False):
     if got is None:
         raise Fail("assertThat-raises", "assertThat:no-MismatchError-on-mismatch", "no exception")
     text = must_str("mismatcherror-str", lambda: str(got))
-    if want not in text:
+    if norm(want) not in norm(text):
         raise Fail("assertThat-report", "assertThat:error-text-lacks-description", "%r lacks %r" % (text[:160], want[:120]))
     try:
         assert_that(matchee, matcher, msg, verbose)
         got = None
     except MismatchError as ex:
         got = ex
-    text = must_str("mismatcherror-str", lambda: str(got)) if got is not None else ""
-    if want not in text:
+    if got is None:
+        raise Fail("assert_that-raises", "assert_that:no-MismatchError-on-mismatch", "no exception although match() returned a mismatch")
+    text = must_str("mismatcherror-str", lambda: str(got))
+    if norm(want) not in norm(text):
         raise Fail("assert_that-report", "assert_that:error-text-lacks-description", "%r lacks %r" % (text[:160], want[:120]))
     if with_expect:
         case = holder_case()
@@ -195,17 +203,15 @@ def describable(matcher, matchee, mismatch, rot=0, with_expect=False):
             raise Fail("expectThat-raises", "expectThat:raised:%s" % type(ex).__name__, repr(ex)[:200])
         det = case.getDetails().get("Failed expectation")
         text = must_str("expectThat-report", det.as_text) if det is not None else ""
-        if want not in text or not getattr(case, "force_failure", False):
+        if norm(want) not in norm(text) or not getattr(case, "force_failure", False):
             raise Fail("expectThat-report", "expectThat:failed-expectation-lacks-description", "%r lacks %r" % (text[-200:], want[:120]))
     # last (the clauses above use one describe() per mismatch object): describing a mismatch again gives the same text
-    c = fresh(matcher, matchee)
-    first = must_str("describe", c.describe)
-    second = must_str("describe", c.describe)
-    if first != second or first != d0:
+    second = must_str("describe", b.describe)
+    if norm(second) != norm(d1):
         raise Fail(
             "describe-unstable",
-            "describe-unstable:%s" % (unstable_class(fresh(matcher, matchee)) or type(c).__name__),
-            "first %r, then %r" % (first[:120], second[:120]),
+            "describe-unstable:%s" % (unstable_class(fresh(matcher, matchee)) or type(b).__name__),
+            "first %r, then %r" % (d1[:120], second[:120]),
         )
 
 
@@ -217,8 +223,9 @@ def check_pair_describable(e, v, cx, pool):
     try:
         must_str("matcher-str", lambda: str(m))
         r, mm = mc.verdict(m, val)
-        if r in ("T", "F"):
-            # assert_that raises MismatchError exactly when match() returned a mismatch - on every pair, not only on
+        if r == "T":
+            # assert_that raises MismatchError exactly when match() returned a mismatch (the mismatching side is in
+            # describable()) - on every pair, not only on
             # the sample run as real tests (a mismatch object that is falsy must still count as a mismatch)
             from testtools.assertions import assert_that
             from testtools.matchers import MismatchError
@@ -246,6 +253,9 @@ _ROT = [0]
 
 
 # ---------------------------------------------------------------------------------------------------------
+NEXTRA = 2  # concretisations besides ASCII per text expression (1 in the quick tier)
+
+
 def part_pairs(rep, rows, uni, pool, rnd, source, test_every):
     """Part A over TLC rows; returns the sample of pairs for part B."""
     fails = {}
@@ -258,7 +268,7 @@ def part_pairs(rep, rows, uni, pool, rnd, source, test_every):
             cxs = [mc.CX_ASCII]
         else:
             ok = [c for c in mc.CX_ALL if mc.cx_applicable(c, srt, e)]
-            cxs = [ok[0]] + rnd.sample(ok[1:], min(2, len(ok) - 1))
+            cxs = [ok[0]] + rnd.sample(ok[1:], min(NEXTRA, len(ok) - 1))
         nontriv = mc.depth_of(e) >= 2
         for v, expected in zip(uni[srt], row["r"]):
             if expected == "X":
@@ -416,12 +426,16 @@ def part_tests(rep, sample, pool, rnd):
             elif not holds_all(det, user + dcont):
                 bad("assertThat-details", "assertThat:details-lost", e, v, cx, "user and mismatch details all present", sorted(det))
             elif want is not None:
-                try:
-                    text = str(raised)
-                except BaseException as ex:  # noqa
-                    text = "<str raised %r>" % ex
-                if want not in text:
-                    bad("assertThat-report", "assertThat:error-text-lacks-description", e, v, cx, want[:160], text[:200])
+                # the runner has rendered the error into the traceback detail: that is the report of the failure
+                texts = []
+                for k, c in det.items():
+                    if not any(c is x for x in user + dcont):
+                        try:
+                            texts.append(c.as_text())
+                        except BaseException as ex:  # noqa
+                            texts.append("<as_text raised %r>" % ex)
+                if not any(norm(want) in norm(t) for t in texts):
+                    bad("assertThat-report", "assertThat:error-text-lacks-description", e, v, cx, want[:160], [t[-200:] for t in texts])
         else:
             if raised is not None or name != "addSuccess":
                 bad("assertThat-raises", "assertThat:raises-on-match:%s" % type(raised).__name__, e, v, cx, "no exception, addSuccess", "%r %s" % (raised, name))
@@ -482,7 +496,7 @@ def part_tests(rep, sample, pool, rnd):
                         texts.append(c.as_text())
                     except BaseException as ex:  # noqa
                         texts.append("<as_text raised %r>" % ex)
-            if sum(1 for t in texts if want in t) < 3:
+            if sum(1 for t in texts if norm(want) in norm(t)) < 3:
                 bad("expectThat-report", "expectThat:failed-expectation-lacks-description", e, v, cx, want[:160], [t[-160:] for t in texts])
     for (clause, sig), (e, v, cx, expected, observed) in sorted(fails.items()):
         rep.violation(
@@ -616,7 +630,10 @@ def part_stock(rep, pool):
                     if r.startswith("E:"):
                         raise Fail("match-raises", sig_of(mm), repr(mm)[:200])
                     if r == "F":
-                        describable(m, x, mm)
+                        describable(m, x, mm, 0, with_expect=True)
+                        for rot in (1, 2, 3):  # every message / verbosity combination
+                            m = mk()
+                            describable(m, x, fresh(m, x), rot, with_expect=True)
                 except Fail as f:
                     fails.setdefault((f.clause, f.signature), (name, x, f))
     for (clause, sig), (name, x, f) in sorted(fails.items()):
@@ -803,10 +820,11 @@ def run(tier, pid="C07"):
     try:
         check_textrepr_mutation(rep)
         part_stock(rep, pool)
+        global NEXTRA
+        NEXTRA = 1 if tier == "quick" else 2
         if tier == "quick":
             jobs = [
                 ("mt_mcQ.cfg", {}),
-                ("mt_mcD3q.cfg", {}),
                 ("mt_sim.cfg", dict(simulate=dict(num=15, depth=14), seed=rep.seed + 1)),
             ]
             test_every, trjobs = 97, [("tr_exp4.cfg", 3)]
@@ -840,6 +858,9 @@ def run(tier, pid="C07"):
         rep.extra["expectThat_lifecycle_programs"] = lifecycle.expect_that_check(rep, tier)
     finally:
         pool.close()
+    import time as _time
+
+    rep.extra["driver_cpu_s"] = round(_time.process_time(), 1)
     rep.exhaustive = False
     rep.extra["explanation"] = (
         "exhaustive over the bounded spaces of the mt_mc*.cfg / tr_exp*.cfg configs, random for mt_sim.cfg and for the "
